@@ -109,3 +109,4 @@ CFG['rule'] = CFG['rule'] + ' ' + 'Graph histories with a trainable quantiser (l
 CFG['rule'] = CFG['rule'] + ' ' + 'Delete batches of the graph profile remove, one time in three, everything but one or two random survivors in one batch.'
 CFG['rule'] = CFG['rule'] + ' ' + 'One history in ten has a hamming / jaccard graph index that also carries a binary quantiser block with a threshold and a metric of its own (not used for these metrics), with fractional vector components.'
 CFG['rule'] = CFG['rule'] + ' ' + 'Visited-set sweep (judged in Go, reported as note 950 / code 138): vamana.NewDistSet for largest node ids on, below and above each of the seven size classes and some others; a point added twice (alone and inside one Add call) must be kept once.'
+CFG['rule'] = CFG['rule'] + ' ' + 'A tenth of the histories keep the graph vector at the nested path nested.v (updates reach it through the parent key).'
